@@ -102,7 +102,9 @@ namespace {
       // the axial component of the gradients is not an input in plane stress
       b.g0[sz.axial] = 0;
       b.g1[sz.axial] = 0;
-      if (std::string(e.wrapper) == "log" || std::string(e.wrapper) == "fs") {
+      // (the Hencky wrapper takes the logarithm of the gradient as given before it replaces the axial component; the two others ADD the axial
+      // deformation gradient to the axial slot)
+      if (std::string(e.wrapper) == "log") {
         b.g0[sz.axial] = 1;
         b.g1[sz.axial] = 1;
       }
@@ -187,9 +189,16 @@ namespace {
     if (s == "invalid choice for the stress measure") return "badstressmeasure";
     if (s == "invalid choice for consistent tangent operator") return "badtangent";
     if (s.rfind("hook:", 0) == 0) return "exc:" + s.substr(5);
+    // generated finite strain behaviours in plane stress: the conversions of the tangent operator are not available, the generated
+    // integrate / computePredictionOperator throw for any operator but the one the behaviour provides
+    if (s.find("is not supported") != std::string::npos && s.find("computeConsistentTangentOperator_") != std::string::npos) return "exc:integ";
+    if (s.find("is not supported") != std::string::npos && s.find("computePredictionOperator_") != std::string::npos) return "exc:pred";
     if (s.find("out of bounds") != std::string::npos || s.find("OutOfBounds") != std::string::npos || s.find("bound") != std::string::npos)
       return "exc:bounds";
-    return "other(" + s + ")";
+    std::string t = s.substr(0, 120);
+    for (auto& ch : t)
+      if (ch == ' ' || ch == '|' || ch == '=') ch = '_';
+    return "other(" + t + ")";
   }
 
   long ncalls = 0;
@@ -372,7 +381,10 @@ int main(const int argc, const char* const* argv) {
               // every script under the None (set explicitly) and Strict policies; the others only see the scripts where the policy matters
               const bool strict = ps.size() == 1 && ps[0] == 2;
               if (!main_policy && !strict && !(s.oob == 1 || s.code() == 0)) continue;
-              if (!plain && !(K1 == 0 && K2 == 0) && !(K1 == 1 && K2 == 1) && !(s.code() == 0 || s.integ == 1 || s.apost == 1 || s.ie == 1 || s.pred == 1)) continue;
+              // off the two reference (K[1], K[2]) pairs: the plain success, a failed integration, a late exception
+              if (!plain && !(K1 == 0 && K2 == 0) && !(K1 == 1 && K2 == 1) &&
+                  !((s.code() == 0 && s.oob == 0 && s.apriori_v == 2000 && s.apost_v == 3000) || s.integ == 1 || s.ie == 1 || s.pred == 1))
+                continue;
               call(e, K0, K1, K2, s, pname);
             }
     }
